@@ -401,7 +401,8 @@ fn lin(args: &[String], out: &mut dyn Write) {
             inv["t"] = json!(t);
             let s0 = stamp();
             let depth = o["depth"].as_u64().unwrap() as usize;
-            let ret = match o["op"].as_str().unwrap() {
+            // a panic of the store under test is data: the call gets a response no linearisation can explain
+            let ret = std::panic::catch_unwind(std::panic::AssertUnwindSafe(|| match o["op"].as_str().unwrap() {
                 "cupd" => {
                     cache.update_threshold(Arc::new(St { d: -1, x: unletter(o["st"].as_str().unwrap()) }), depth, o["value"].as_i64().unwrap() as isize, o["explored"].as_bool().unwrap());
                     json!({})
@@ -417,11 +418,14 @@ fn lin(args: &[String], out: &mut dyn Write) {
                     let (d, th) = djson(&res);
                     json!({"dominated": d, "threshold": th})
                 }
-                x => panic!("{x}"),
-            };
+                x => json!({"harness_error": x}),
+            }));
             let s1 = stamp();
-            let mut res = ret;
-            res["ev"] = json!("res");
+            let (mut res, kind) = match ret {
+                Ok(r) => (r, "res"),
+                Err(_) => (json!({}), "panicked"),
+            };
+            res["ev"] = json!(kind);
             res["t"] = json!(t);
             evs.push((s0, inv));
             evs.push((s1, res));
